@@ -270,7 +270,7 @@ def TT.findRawConflicts (fl : Flags) (tt : TT) : List Conflict :=
 /-! ### operations -/
 
 inductive Err where
-  | duplicateKey | cantMoveRoot | keyError | noFinalPath | malformed | valueError | isADirectory
+  | duplicateKey | cantMoveRoot | keyError | noFinalPath | malformed | valueError | isADirectory | fileExists
   deriving DecidableEq, Repr
 
 def TT.root : Tid := 0
@@ -345,7 +345,9 @@ def TT.step (fl : Flags) (tt : TT) : Op → Except Err TT
   | .createFile d t =>
     -- `open(limbo_name, "wb")` comes before `unique_add`
     if (alookup tt.newContents t).map (·.1) = some .dir then .error .isADirectory else tt.createContents t .file d
-  | .createDir t => tt.createContents t .dir ""
+  | .createDir t =>
+    -- `os.mkdir(limbo_name)` comes before `unique_add`
+    if ahas tt.newContents t then .error .fileExists else tt.createContents t .dir ""
 
 /-- run the operations until the first one that raises; returns the log -/
 def TT.steps (fl : Flags) (tt : TT) : List Op → TT × Option Err
